@@ -258,7 +258,12 @@ def run(main, pid):
         ck = None
         try:
             ck = memory_verdict("%s: %s" % (type(e).__name__, str(e)[:200]))
-            from .interp import ThrowEx as _ThrowEx
+            from .interp import ThrowEx as _ThrowEx, IntDivByZero as _IntDivByZero
+            if ck is None and isinstance(e, _IntDivByZero):
+                ck = Check(pid, a.tier, level="other", technique="abstract interpretation (integer arithmetic of the interpreted code)")
+                ck.rule("R-%s-intdiv" % pid, "the interpreted library code never divides an integer by zero", floor=0)
+                tb = traceback.extract_tb(e.__traceback__)
+                ck.fail("R-%s-intdiv" % pid, "integer-division-by-zero", "?", "the library code performs an %s while the check interprets it on an admissible input (undefined behaviour)" % e)
             if ck is None and isinstance(e, _ThrowEx):
                 # the interpreted library code itself throws on an input the check hands it as admissible
                 ck = Check(pid, a.tier, level="other", technique="abstract interpretation (uncaught exception of the interpreted code)")
